@@ -298,6 +298,57 @@ def ev_twice_identity(p, keep):
             c(a.arguments), c(x.arguments)]
 
 
+BUF_HDR_PLAIN = refcodec.enc_header_frame(
+    7, {'content_type': 'text/plain', 'delivery_mode': 1, 'app_id': 'one'},
+    5)[0]
+BUF_HDR_PLAIN2 = refcodec.enc_header_frame(
+    9, {'content_type': 'application/json', 'priority': 4,
+        'message_id': 'two'}, 6)[0]
+
+
+def ev_keep_parts_drop_wholes(p, keep):
+    """The consumer idiom: take out of a decoded frame what is needed (its
+    properties, their headers, the arguments table), let the frame itself go,
+    decode the next ones. What was kept must stay what it was, must not be
+    handed out again, and the later frames must be what they always are."""
+    import gc
+    kept, out = [], []
+    bufs = (BUF_HDR_PLAIN, BUF_HDR_PLAIN2, BUF_HDR_EMPTY, BUF_HDR_FLAT,
+            BUF_HDR, BUF_QD_FLAT, BUF_QD, BUF_QD_EMPTY, BUF_PUB)
+    for _round in range(3):
+        for buf in bufs:
+            obj, res = decode(p, buf)
+            out.append(res)
+            if obj is None:
+                continue
+            props = getattr(obj, 'properties', None)
+            parts = [props, getattr(props, 'headers', None),
+                     getattr(obj, 'arguments', None)]
+            for part in parts:
+                if part is not None:
+                    view = dict(part) if props is part else part
+                    kept.append((part, c(view)))
+            del obj, props, parts, part
+            gc.collect()
+    changed = [i for i, (part, snap) in enumerate(kept)
+               if c(dict(part) if not isinstance(part, (dict, list))
+                    else part) != snap]
+    handed_out_twice = len(kept) - len({id(part) for part, _s in kept})
+    if changed or handed_out_twice:
+        # the event's own invariant (it holds or not in a fresh interpreter
+        # just the same, so the baseline comparison cannot see it)
+        return ['BROKEN', '%d of the %d parts kept from decoded frames (their '
+                'frames dropped) changed while later frames were decoded '
+                '(first: part %s), %d objects were handed out more than once'
+                % (len(changed), len(kept), changed[:1], handed_out_twice)]
+    for part, _snap in kept:
+        if not isinstance(part, dict) or not any(
+                getattr(other, 'headers', None) is part
+                for other, _s in kept):
+            keep(part)      # headers are reachable through their properties
+    return [out, changed, handed_out_twice]
+
+
 def ev_repeat_decode_mutate(p, keep):
     """The same header and method buffers decoded 130 times; after each
     decode the result is mutated in place: no later decode and no earlier
@@ -698,6 +749,8 @@ EVENTS = [
     ('decode twice identities', ev_twice_identity),
     ('encode keeps its input', ev_encode_input_kept),
     ('decode 130 times, mutating each result', ev_repeat_decode_mutate),
+    ('keep parts of decoded frames, drop the frames, decode on',
+     ev_keep_parts_drop_wholes),
 ]
 TOGGLES = {'toggle ()': True, 'toggle (True)': True, 'toggle (False)': False}
 
